@@ -11,6 +11,7 @@ import (
 	"path/filepath"
 	"reflect"
 	"runtime"
+	"runtime/debug"
 	"sort"
 	"sync"
 
@@ -380,6 +381,7 @@ func runPostIter(walksPath, tablesPath, batchesPath, dir, outPath string, quick 
 		wg.Add(1)
 		sem <- struct{}{}
 		go func(jb job) {
+			debug.SetPanicOnFault(true)
 			defer wg.Done()
 			defer func() { <-sem }()
 			lr := &piRunner{tables: r.tables, classes: map[string]int{}}
